@@ -1,3 +1,4 @@
 /- C03: the timer contract over every event list (Props/C03.lean) and its stability under REST requests (Props/C03b.lean). -/
 import Yabgp.Props.C03
 import Yabgp.Props.C03b
+import Yabgp.Props.C03c
